@@ -34,7 +34,7 @@ def run(ctx):
     ctx.clause = ("DIEs of the three debug-info sources (main .debug_info, alternate .debug_info, .debug_types) are kept in "
                   "separate tables, each section is walked under its own source tag, and a unit is only taken for a "
                   ".debug_types unit after its DWARF version was looked at")
-    ctx.rules = ["R-DIESRC", "R-UNITSRC", "R-TUSECTION", "R-MEMBERTAG"]
+    ctx.rules = ["R-DIESRC", "R-UNITSRC", "R-TUSECTION", "R-MEMBERTAG", "R-VALPDEREF"]
     P = ctx.program(UNITS)
     consts = P.enum_consts(ENUM)
     if not all(c in consts for c in REAL):
@@ -43,6 +43,8 @@ def run(ctx):
     check_unitsrc(ctx, P)
     check_tusection(ctx, P)
     check_membertag(ctx, P)
+    from rules import C15
+    C15.check_valpderef(ctx, P)
     ctx.assume("the contents of the DWARF (forms, attribute encodings of DWARF 4 vs 5, column information) are decoded by "
                "elfutils and interpreted at run time; only the per-source bookkeeping is decided")
 
